@@ -104,6 +104,24 @@ def run_case(data):
         if len(c.incoming_buffer._headers_buffer) > 64:
             r.violate('C27:header-buffer-exceeds-continuation-limit', str(len(c.incoming_buffer._headers_buffer)))
 
+    # one long-lived stream with the lowest id of its kind: when the application finally cancels it, it is the
+    # most recently closed stream and must be remembered as such, however many streams closed before it
+    def open_old():
+        nonlocal next_local, next_peer
+        if client:
+            sid = next_local
+            next_local += 2
+            if not ep.call('send_headers', sid, REQ).ok:
+                return None
+        else:
+            sid = next_peer
+            next_peer += 2
+            if not ep.recv(wire.headers(sid, enc.encode(REQ))).ok:
+                return None
+        live.add(sid)
+        return sid
+    old_sid = open_old()
+
     connections = 1
     max_closed = 0
     while delivered < budget and not r.violations:
@@ -125,8 +143,31 @@ def run_case(data):
             dead = False
             connections += 1
             delivered += 2
+            old_sid = open_old()
         phase = ch.weighted([(3, 'noise-idle'), (3, 'noise-closed'), (6, 'churn'), (4, 'push-flood'), (2, 'continuation'),
-                             (2, 'header-list-size'), (1, 'unknown')])
+                             (2, 'header-list-size'), (1, 'unknown'), (2, 'cancel-old-stream')])
+        if phase == 'cancel-old-stream':
+            delivered += 1
+            if old_sid is None or closed_total <= limit + 10:
+                continue
+            # cancelled by the application only now; the frames the peer still has in flight for it are the
+            # ordinary "frames racing a reset", not a connection error
+            ep.call('reset_stream', old_sid)
+            live.discard(old_sid)
+            _ = c.open_inbound_streams, c.open_outbound_streams
+            o = feed(wire.headers(old_sid, enc.encode(RESP if client else [(b'x-t', b'1')]), end_stream=True) +
+                     wire.data(old_sid, b'late'), 2, 'cancel-old-stream')
+            r.step('late frames on the long-lived stream after', closed_total, 'closed streams', o.brief())
+            if not o.ok:
+                r.violate('C27:most-recently-closed-stream-forgotten:%s' % o.exc_name, 'stream %d after %d closed streams'
+                          % (old_sid, closed_total))
+            old_sid = None
+            closed_total += 1
+            near_limit = True
+            r.labels.add('cancel-old-stream')
+            if not dead:
+                probe(phase)
+            continue
         n = ch.pick([50, 200, 1000, 3000])
         r.step('phase', phase, n)
         before = len(c.streams)
@@ -318,7 +359,7 @@ def run_case(data):
             probe(phase)
         # keep the number of live streams below the concurrency limit
         if len(live) > 60 and not dead:
-            for sid in sorted(live)[:40]:
+            for sid in [x for x in sorted(live) if x != old_sid][:40]:
                 ep.call('reset_stream', sid)
                 live.discard(sid)
                 closed_total += 1
